@@ -4,6 +4,7 @@ import (
 	"bytes"
 	"encoding/json"
 	"fmt"
+	"math"
 	"reflect"
 	"sort"
 	"strings"
@@ -48,6 +49,8 @@ var c14Lists = []struct {
 	{"Id(a), Lit(1)", func() []jen.Code { return []jen.Code{jen.Id("a"), jen.Lit(1)} }},
 	{"Qual(x/y,Z), Null(), Id(b)", func() []jen.Code { return []jen.Code{jen.Qual("x/y", "Z"), jen.Null(), jen.Id("b")} }},
 	{"Qual(w/y,Z), Id(c).Op(+).Lit(2)", func() []jen.Code { return []jen.Code{jen.Qual("w/y", "Z"), jen.Id("c").Op("+").Lit(2)} }},
+	{"nil, Id(a), Add(nil).Id(b)", func() []jen.Code { return []jen.Code{nil, jen.Id("a"), jen.Add(nil).Id("b")} }},
+	{"Id(a).Clone(), Add(Id(b))", func() []jen.Code { return []jen.Code{jen.Id("a").Clone(), jen.Add(jen.Id("b"))} }},
 }
 
 // argDomain returns the tiny domain of values for a parameter type (nil = cannot synthesise).
@@ -79,6 +82,7 @@ func argDomain(t reflect.Type, variadic bool, method string, wild bool) []argVal
 		return []argVal{
 			{"Id(c0)", func(*int) reflect.Value { return reflect.ValueOf(jen.Id("c0")) }},
 			{"Qual(x/y,Q).Call()", func(*int) reflect.Value { return reflect.ValueOf(jen.Qual("x/y", "Q").Call()) }},
+			{"Id(c1).Clone()", func(*int) reflect.Value { return reflect.ValueOf(jen.Id("c1").Clone()) }},
 		}
 	case t.Kind() == reflect.String && wild:
 		// C02: nonsensical text too
@@ -845,7 +849,7 @@ func runC14(r *ev.Recorder) {
 		"(strings, Code, ...Code lists of 0-3 items incl. Null() and two paths with the same guessed alias, callbacks, tag maps, Options, literals). For each: package function (from the generated list of the tree's exported functions), "+
 		"method on a fresh and on a non-empty *Statement, *Group method (appends exactly one item, identical to the returned statement; appending to the result never changes an argument), "+
 		"raw renderings byte-equal across forms; GoString / Render / RenderWithFile(fresh File) agree; ...Func variants equal their variadic form; every callback counter == 1 when the constructing call returns and unchanged after three renders. "+
-		"Late arguments: every *Statement argument gets a token appended and every tag map a key added after the constructing call - the three forms must still render alike. Re-entrant callbacks: a callback that also appends to the receiver / enclosing group, or panics and is recovered, leaves the same statement behind in the method and the function form; a tag map filled after Tag(m) was called shows alike in all three forms. Runs on a single goroutine, in one process, so that hidden state shared by stand-alone renders would show. distinct_nontrivial = distinct (construct, argument combination) cases", len(cs), names)
+		"LitFunc / LitRuneFunc / LitByteFunc render what Lit / LitRune / LitByte render for the returned value, also for values outside Lit's contract (non-finite floats, unsupported types, invalid code points). Late arguments: every *Statement argument gets a token appended and every tag map a key added after the constructing call - the three forms must still render alike. Re-entrant callbacks: a callback that also appends to the receiver / enclosing group, or panics and is recovered, leaves the same statement behind in the method and the function form; a tag map filled after Tag(m) was called shows alike in all three forms. Runs on a single goroutine, in one process, so that hidden state shared by stand-alone renders would show. distinct_nontrivial = distinct (construct, argument combination) cases", len(cs), names)
 	r.Assume = []string{"argument values outside the tiny domains are outside the bound", "DictFunc returns a Dict, not a statement: its callback count is checked separately"}
 	if len(missing) > 0 {
 		r.Note("constructs_without_synthesised_arguments", missing)
@@ -878,6 +882,36 @@ func runC14(r *ev.Recorder) {
 	c14Hoisting(r)
 	c14Reentrant(r)
 	c14LateMaps(r)
+	// the ...Func literal constructors are the plain ones applied to what the callback returns -
+	// whatever the plain one does with the value (also when it is a value Lit cannot render)
+	for _, v := range []any{1, "s", 1.5, true, int8(3), 2i, uint64(1) << 63, float32(0.1), math.Inf(1), math.Inf(-1), math.NaN(), float32(math.Inf(1)), complex(math.NaN(), 1), complex64(complex(math.Inf(1), 0)), struct{ A int }{1}, []int{1}, nil} {
+		v := v
+		a := jh.CatchOutcome(func() jh.Outcome { return jh.Raw(jen.Id("x").Op("=").Lit(v)) })
+		b := jh.CatchOutcome(func() jh.Outcome { return jh.Raw(jen.Id("x").Op("=").LitFunc(func() interface{} { return v })) })
+		r.Eval(2)
+		r.Distinct(fmt.Sprintf("litfunc-%T-%v", v, v))
+		if a.OK() != b.OK() || a.OK() && a.Out != b.Out {
+			r.Violate(ev.Violation{Signature: "c14:LitFunc-vs-Lit", What: fmt.Sprintf("Lit(%T %v) renders %q, LitFunc returning it %q", v, v, a, b), Case: ev.JSON(c14Case{Kind: "hoisting", Name: "LitFunc", Desc: "LitFunc vs Lit"})})
+		}
+	}
+	for _, v := range []rune{'a', 0, '\'', '\n', 0x2028, 0xFFFD, 0x10FFFF, -1, 0xD800} {
+		v := v
+		a := jh.CatchOutcome(func() jh.Outcome { return jh.Raw(jen.Id("x").Op("=").LitRune(v)) })
+		b := jh.CatchOutcome(func() jh.Outcome { return jh.Raw(jen.Id("x").Op("=").LitRuneFunc(func() rune { return v })) })
+		r.Eval(2)
+		if a.OK() != b.OK() || a.OK() && a.Out != b.Out {
+			r.Violate(ev.Violation{Signature: "c14:LitRuneFunc-vs-LitRune", What: fmt.Sprintf("LitRune(%U) renders %q, LitRuneFunc returning it %q", v, a, b), Case: ev.JSON(c14Case{Kind: "hoisting", Name: "LitRuneFunc", Desc: "LitRuneFunc vs LitRune"})})
+		}
+	}
+	for _, v := range []byte{0, 'a', '\'', 0x7f, 0xff} {
+		v := v
+		a := jh.CatchOutcome(func() jh.Outcome { return jh.Raw(jen.Id("x").Op("=").LitByte(v)) })
+		b := jh.CatchOutcome(func() jh.Outcome { return jh.Raw(jen.Id("x").Op("=").LitByteFunc(func() byte { return v })) })
+		r.Eval(2)
+		if a.OK() != b.OK() || a.OK() && a.Out != b.Out {
+			r.Violate(ev.Violation{Signature: "c14:LitByteFunc-vs-LitByte", What: fmt.Sprintf("LitByte(%d) renders %q, LitByteFunc returning it %q", v, a, b), Case: ev.JSON(c14Case{Kind: "hoisting", Name: "LitByteFunc", Desc: "LitByteFunc vs LitByte"})})
+		}
+	}
 	// DictFunc
 	n := 0
 	d := jen.DictFunc(func(d jen.Dict) { n++; d[jen.Lit(1)] = jen.Lit(2) })
